@@ -250,7 +250,8 @@ def _run(ix, R):
         if len(rs) == 1 and al:
             ok = fl.tab.equal(r.value, rs[0].new) and fl.tab.equal(rs[0].value, code(fl, 'self._iso_temp')) and \
                 fl.tab.equal(rs[0].old, al[0].value) and \
-                fl.tab.equal(unalloc(fl, al[0].value), spec(fl, 'zeros(self.nlayers)'))
+                any(fl.tab.equal(unalloc(fl, al[0].value), spec(fl, '%s(self.nlayers)' % z_)) for z_ in ('zeros', 'empty', 'ones'))
+            # (the buffer is overwritten as a whole by the reset that follows, so what it is created with does not matter)
         alt = fl.tab.equal(r.value, spec(fl, 'self._iso_temp*ones(self.nlayers)'))
         R.check('3.iso', 'ALG', site, 'isothermal profile = T in every one of nlayers entries',
                 ok or alt, key=fmt(fl, r.value), detail=fmt(fl, r.value), loc=f.loc(r.node))
